@@ -10,7 +10,7 @@ def run(ctx):
     core.check_prop_file(ctx, "Prop_C06.v")
     rnd = random.Random("C06-%d" % ctx.seed)
     n = 90 if ctx.quick() else 2500
-    gen = lambda r: dyngen.DynGen(random.Random(r.random()), ninst=r.choice([1, 2, 2, 3])).scenario(ncalls=3)
+    gen = lambda r: dyngen.DynGen(random.Random(r.random()), ninst=r.choice([1, 2, 2, 3]), with_list=r.random() < 0.4).scenario(ncalls=3)
     scs = [gen(rnd) for _ in range(n)]
     stats = {"evaluations": 0, "outcomes": {}, "with_inline": 0, "dyn_refs": 0}
     bits = 2 | 4 | 8
@@ -68,6 +68,7 @@ def run(ctx):
     ctx.assumptions += [
         "which object a reference denotes is given by the path it is written through (harness: Lits.dyn_block); the statements of "
         "that object's block over that object's fields are the specification",
-        "dynamic blocks hold relational expression statements; references inside if / implies bodies and through list elements "
-        "(ExprIndexedDynRefModel) are not generated",
+        "dynamic blocks hold relational expression statements; references inside if / implies bodies are not generated; 40% of the "
+        "scenarios also hold 2-3 instances in a list: references through self.l[k] (inline) and through self.l[self.sel] (always-on "
+        "block, selector changed between calls)",
     ]
